@@ -5,6 +5,14 @@
 // loop-free => complete.  Also: needed_bytes == nb, ByteSize::parse total, FullPackKind codec.
 use super::*;
 
+// stubs for the error path: message formatting and (debug-profile) backtrace capture are irrelevant to every property
+fn fmt_stub(_args: std::fmt::Arguments<'_>) -> String {
+    String::new()
+}
+fn bt_stub() -> std::backtrace::Backtrace {
+    std::backtrace::Backtrace::disabled()
+}
+
 fn byte_of(v: u64, i: usize) -> u8 {
     ((v >> (8 * i)) & 0xff) as u8
 }
@@ -165,6 +173,8 @@ k_read_isized!(k_read_isized_7, ByteSize::U7, 7);
 k_read_isized!(k_read_isized_8, ByteSize::U8, 8);
 // oblig: shim.parser_bounds kind=complete
 #[kani::proof]
+#[kani::stub(std::fmt::format, fmt_stub)]
+#[kani::stub(std::backtrace::Backtrace::capture, bt_stub)]
 fn k_slice_parser_bounds() {
     let data: [u8; 3] = kani::any();
     let g: u64 = kani::any();
@@ -218,6 +228,8 @@ fn k_needed_bytes_usize() {
 
 // oblig: C14.byte_size_parse kind=complete
 #[kani::proof]
+#[kani::stub(std::fmt::format, fmt_stub)]
+#[kani::stub(std::backtrace::Backtrace::capture, bt_stub)]
 fn k_bytesize_parse_total() {
     let data: [u8; 1] = kani::any();
     let mut p = SliceParser::new(std::borrow::Cow::Borrowed(&data[..]), Offset::zero());
@@ -230,6 +242,8 @@ fn k_bytesize_parse_total() {
 
 // oblig: C14.fullpackkind kind=complete
 #[kani::proof]
+#[kani::stub(std::fmt::format, fmt_stub)]
+#[kani::stub(std::backtrace::Backtrace::capture, bt_stub)]
 fn k_fullpackkind_parse() {
     use crate::common::{FullPackKind, PackKind};
     let data: [u8; 4] = kani::any();
